@@ -115,6 +115,34 @@ func instrument(src []byte, name string) ([]byte, int, error) {
 		}
 		return true
 	})
+	// the clock is a seam of the scheduler: time.Now -> verifsched.Now (real time plus the
+	// virtual time that passed while threads of the controlled run waited for locks)
+	timeName := ""
+	for _, imp := range af.Imports {
+		if p, _ := strconv.Unquote(imp.Path.Value); p == "time" {
+			timeName = "time"
+			if imp.Name != nil {
+				timeName = imp.Name.Name
+			}
+		}
+	}
+	clockReads := 0
+	if timeName != "" && timeName != "_" && timeName != "." {
+		ast.Inspect(af, func(node ast.Node) bool {
+			if sel, ok := node.(*ast.SelectorExpr); ok {
+				if id, ok := sel.X.(*ast.Ident); ok && id.Name == timeName && id.Obj == nil && (sel.Sel.Name == "Now" || sel.Sel.Name == "Until" || sel.Sel.Name == "Since") {
+					id.Name = "verifsched"
+					clockReads++
+				}
+			}
+			return true
+		})
+		if clockReads > 0 {
+			// keep the import of time used
+			af.Decls = append(af.Decls, &ast.GenDecl{Tok: token.VAR, Specs: []ast.Spec{&ast.ValueSpec{
+				Names: []*ast.Ident{ast.NewIdent("_")}, Values: []ast.Expr{&ast.SelectorExpr{X: ast.NewIdent(timeName), Sel: ast.NewIdent("Second")}}}}})
+		}
+	}
 	usesSync := false
 	for _, imp := range af.Imports {
 		if p, _ := strconv.Unquote(imp.Path.Value); p == "sync" {
@@ -125,7 +153,7 @@ func instrument(src []byte, name string) ([]byte, int, error) {
 			usesSync = true
 		}
 	}
-	if n > 0 {
+	if n > 0 || clockReads > 0 {
 		spec := &ast.ImportSpec{Name: ast.NewIdent("verifsched"), Path: &ast.BasicLit{Kind: token.STRING, Value: strconv.Quote(shim)}}
 		decl := &ast.GenDecl{Tok: token.IMPORT, Specs: []ast.Spec{spec}}
 		af.Decls = append([]ast.Decl{decl}, af.Decls...)
